@@ -693,6 +693,10 @@ def check(model, rep, tier):
     finite_clause(model, rep, funcs)
     refinement_callers_clause(model, rep, funcs)
     limit_forwarding_clause(model, rep)
+    from .generic import loop_carried_parameter_obligations, functions_in as _fi2
+    loop_carried_parameter_obligations(model, rep, [f_ for f_ in _fi2(model, ["acryo/loader/_group.py", "acryo/loader/_base.py", "acryo/loader/_batch.py"])
+                                                    if "max_shifts" in f_.param_names()], "4 normalisation")
+    rep.floor("LOOPVAR", 2, "(per-loader loops of the grouped alignment entry points)")
     from .generic import axis_convention_obligations, parallel_index_obligations, functions_in
     axis_convention_obligations(model, rep, ["acryo/backend/_upsample.py", "acryo/backend/_zncc.py", "acryo/backend/_pcc.py", "acryo/backend/_fsc.py", "acryo/backend/_mesh.py"], "3 layout", floor=3)
     for fn in functions_in(model, ["acryo/backend/_upsample.py", "acryo/backend/_zncc.py", "acryo/backend/_pcc.py", "acryo/backend/_fsc.py", "acryo/backend/_mesh.py"]):
